@@ -178,6 +178,66 @@ def install(invalid_value_stub=True):
 
     if invalid_value_stub:
         install_invalid_value_stub()
+    install_scalar_dict_guard()
+
+
+def has_instance_dict(obj):
+    """hasattr(obj, '__dict__') as the native value answers it: a CrossHair proxy (symbolic scalar, ShellMutableSet,
+    the pure-Python datetime classes, ...) is a Python object with an instance __dict__, the value it stands for
+    (int, str, bytes, set, datetime.datetime, ...) has none."""
+    with NoTracing():
+        if hasattr(type(obj), '__ch_pytype__'):
+            native = _core.python_type(obj)
+            return getattr(native, '__dictoffset__', 0) != 0
+        return hasattr(obj, '__dict__')
+
+
+X7_FUNCTIONS = ('_json_traverse', '_markdown_result', '_get_ordered_dict')
+
+
+def install_scalar_dict_guard():
+    """X7: Serializable._json_traverse, ._markdown_result and ._get_ordered_dict probe hasattr(obj, '__dict__').
+    The three functions are recompiled from /repo's current source with exactly that call replaced by
+    has_instance_dict(obj); nothing else of them changes, so a change to the real functions is analysed as it is."""
+    import ast  # pylint: disable=import-outside-toplevel
+    import inspect  # pylint: disable=import-outside-toplevel
+    import textwrap  # pylint: disable=import-outside-toplevel
+    from cryptoparser.common import base  # pylint: disable=import-outside-toplevel
+
+    class Rewrite(ast.NodeTransformer):
+        count = 0
+
+        def visit_Call(self, node):  # pylint: disable=invalid-name
+            self.generic_visit(node)
+            if (isinstance(node.func, ast.Name) and node.func.id == 'hasattr' and len(node.args) == 2 and
+                    isinstance(node.args[1], ast.Constant) and node.args[1].value == '__dict__'):
+                Rewrite.count += 1
+                return ast.copy_location(ast.Call(func=ast.Name(id='__chx_has_instance_dict', ctx=ast.Load()),
+                                                  args=[node.args[0]], keywords=[]), node)
+            return node
+
+    base.__dict__['__chx_has_instance_dict'] = has_instance_dict
+    for name in X7_FUNCTIONS:
+        raw = inspect.getattr_static(base.Serializable, name, None)
+        if raw is None:
+            continue
+        func = raw.__func__ if isinstance(raw, (staticmethod, classmethod)) else raw
+        try:
+            source = textwrap.dedent(inspect.getsource(func))
+        except (OSError, TypeError):
+            continue
+        tree = ast.parse(source)
+        before = Rewrite.count
+        tree = ast.fix_missing_locations(Rewrite().visit(tree))
+        ast.increment_lineno(tree, func.__code__.co_firstlineno - 1)
+        if Rewrite.count == before:
+            continue
+        tree.body[0].decorator_list = []
+        namespace = {}
+        exec(compile(tree, inspect.getsourcefile(func), 'exec'), func.__globals__, namespace)  # pylint: disable=exec-used
+        fresh = namespace[func.__name__]
+        fresh.__qualname__ = func.__qualname__
+        setattr(base.Serializable, name, type(raw)(fresh) if isinstance(raw, (staticmethod, classmethod)) else fresh)
 
 
 def install_invalid_value_stub():
